@@ -135,10 +135,6 @@ func setupRoutes(module *ast.Module, filePath string, forceInterpreter ...bool) 
 	// And for declarations the server does not act on at all.
 	warnInertDeclarations(module)
 
-	// Compiled routes have no interpreter to consult, so hand them the type
-	// definitions they need to validate request bodies.
-	setCompiledTypeDefs(module)
-
 	// Try to compile routes if using compiler mode
 	if useCompiler {
 		c := compiler.NewCompilerWithOptLevel(compiler.OptBasic)
@@ -216,6 +212,13 @@ func setupRoutes(module *ast.Module, filePath string, forceInterpreter ...bool) 
 			}
 		}
 	}
+
+	// Compiled routes have no interpreter to consult, so hand them the type
+	// definitions they need to validate request bodies. This happens last: the table is
+	// package-level state that the handlers of a server which is still running consult on
+	// every request, and a set-up that fails (a dev-server edit that does not compile) must
+	// leave that server with the types it was started with.
+	setCompiledTypeDefs(module)
 
 	return useCompiler, compiledRoutes, wsServer, router, nil
 }
